@@ -1062,6 +1062,33 @@ def unrolled_size(heap, root, depth: int = 48, cap: int = 30000) -> int:
     return sum(size(i, depth) for i in r) if r else 1
 
 
+def heap_has_cycle(heap, root) -> bool:
+    """Does the object graph reachable from `root` contain a cycle?  (`unstructure_to_dict` takes tree-shaped values; on a cyclic
+    graph the real code recurses until RecursionError - the serializer's cycle handling is a separate set of cases.)"""
+    objs = {i: d for i, d in heap}
+
+    def kids(i):
+        d = objs.get(i, {})
+        vals = d["list"] if "list" in d else [v for _k, v in d["dict"]] if "dict" in d else [v for _n, v in d.get("f", [])]
+        return [v["ref"] for v in vals if isinstance(v, dict) and "ref" in v]
+    state: dict = {}
+    stack = [(root["ref"], iter(kids(root["ref"])))] if isinstance(root, dict) and "ref" in root else []
+    if stack:
+        state[stack[0][0]] = 1
+    while stack:
+        i, it = stack[-1]
+        nxt = next(it, None)
+        if nxt is None:
+            state[i] = 2
+            stack.pop()
+        elif state.get(nxt) == 1:
+            return True
+        elif nxt not in state:
+            state[nxt] = 1
+            stack.append((nxt, iter(kids(nxt))))
+    return False
+
+
 class HeapGen:
     """A random object graph over the classes of a Case: heap description for the model + the live objects."""
 
@@ -1369,7 +1396,7 @@ def _unstructure_cases(rng, scale, cc, add, bump):
         root_cls = c.gen_class(0)
         hg = HeapGen(c, rng, 0.0)
         root, _ = hg.hval(rng.choice([{"dc": root_cls}, {"dc": root_cls}, {"list": {"dc": root_cls}}, "any"]), 0)
-        if len(hg.heap) > 200 or unrolled_size(hg.heap, root) >= 30000:
+        if len(hg.heap) > 200 or unrolled_size(hg.heap, root) >= 30000 or heap_has_cycle(hg.heap, root):
             continue
         val = hg.materialise()
         obj = val(root)
